@@ -182,12 +182,12 @@ def check_mapping(ctx):
                 T(val) == "%s[%s][%s]" % (dft, cold, a)
             if pos is not None:
                 # loop form: the candidate dictionary starts empty for every cold arm
-                fresh = [s for s in lo.body if isinstance(s, ast.Assign) and ast.unparse(s.targets[0]) == cand]
+                fresh = [s for s in ast.walk(lo) if isinstance(s, ast.Assign) and ast.unparse(s.targets[0]) == cand]
                 ok_inner = ok_inner and len(fresh) == 1 and ast.unparse(fresh[0].value) in ("{}", "dict()") and \
                     fresh[0].lineno < pos
         closest = "argmin(%s)" % cand
         dist = "%s[%s][%s]" % (dft, cold, closest)
-        guards = [s for s in lo.body if isinstance(s, ast.If) and any(
+        guards = [s for s in ast.walk(lo) if isinstance(s, ast.If) and any(
             isinstance(x, ast.Assign) and ast.unparse(x.targets[0]) == "%s[%s]" % (mapname, cold) for x in s.body)]
         stores = [x for x in ast.walk(fn.node) if isinstance(x, ast.Assign) and isinstance(x.targets[0], ast.Subscript)
                   and ast.unparse(x.targets[0].value) == mapname]
